@@ -1,4 +1,4 @@
-use super::swift_utils::{parse_amount, parse_date_yymmdd, parse_swift_chars};
+use super::swift_utils::{ensure_ascii, parse_amount, parse_date_yymmdd, parse_swift_chars};
 use crate::errors::ParseError;
 use crate::traits::SwiftField;
 use chrono::NaiveDate;
@@ -52,6 +52,8 @@ impl SwiftField for Field61 {
     where
         Self: Sized,
     {
+        ensure_ascii(input, "Field 61")?;
+
         // Format: 6!n[4!n]2a[1!a]15d1!a3!c[16x][//16x][34x]
         if input.len() < 15 {
             return Err(ParseError::InvalidFormat {
